@@ -449,6 +449,8 @@ fn fde_pool() -> Vec<(Vec<u8>, Vec<u8>, u64, u64)> {
         ([one.clone(), vec![CFA_REMEMBER_STATE]].concat(), vec![CFA_ADVANCE_LOC | 1, CFA_RESTORE_STATE, CFA_ADVANCE_LOC | 1, CFA_RESTORE_STATE], 0xc000, 0x10), // 11: row left on the stack by the CIE
         (two.clone(), vec![CFA_GNU_ARGS_SIZE, 0x20, CFA_ADVANCE_LOC | 3, CFA_SAME_VALUE, 16, CFA_ADVANCE_LOC | 60, CFA_ADVANCE_LOC | 60], 0xd000, 0x20), // 12: advance beyond the end
         (cfa.clone(), vec![CFA_SET_LOC, 0, 0, 0, 0, 0, 0, 0, 0], 0xe000, 0x10),                          // 13: set_loc backwards
+        (cfa.clone(), vec![CFA_GNU_ARGS_SIZE, 0x10, CFA_ADVANCE_LOC | 4, CFA_DEF_CFA_OFFSET, 16], 0xf000, 0x10),  // 14: args_size on the bottom row (no initial rules)
+        ([one.clone(), vec![CFA_GNU_ARGS_SIZE, 8]].concat(), body.clone(), 0x10000, 0x40),              // 15: args_size set by the CIE
     ]
 }
 
@@ -494,7 +496,8 @@ pub fn gen(ctx: &Ctx, emit: &mut dyn FnMut(String)) {
             let i = rng.below(n as u64) as usize;
             let which = rng.chance(1, 2);
             let v = if which { &mut p[i].0 } else { &mut p[i].1 };
-            let ins: Vec<u8> = match rng.below(6) {
+            let ins: Vec<u8> = match rng.below(7) {
+                6 => vec![CFA_GNU_ARGS_SIZE, rng.below(64) as u8],
                 0 => vec![CFA_REMEMBER_STATE],
                 1 => vec![CFA_RESTORE_STATE],
                 2 => vec![CFA_OFFSET | rng.below(20) as u8, rng.below(9) as u8],
